@@ -16,7 +16,7 @@ DEPENDS = ['TidalPy/RadialSolver', 'TidalPy/utilities/dimensions', 'TidalPy/util
 MIN_DECISIVE = {'quick': 110, 'thorough': 2500}
 CASE_TIMEOUT = 600
 RULE = ('each case = (relation R1..R6, random 1-4 layer body of solid / static-liquid / dynamic-liquid (w >= 1e-4 only) layers with constant or linearly '
-        'varying profiles, l 2..6, frequency, scale factor a in [1e-2,1e2], integrator pair, solve_for arrangement); non-trivial = every member of the pair '
+        'varying profiles, l 2..6, frequency, scale factor a in [1e-2,1e2], integrator pair, requested solution types (tidal / loading / both / loading+free), nondimensionalize value for the reciprocity relation); non-trivial = every member of the pair '
         'succeeded and is stable to 1e3 rtol under a 100x tighter tolerance; distinct by case hash')
 ASSUMPTIONS = ['budget |dL| <= 50 max(rtol) + 10 (delta_conv_a + delta_conv_b); nested refinement additionally 0.01 (dr_max/R)^2 (profiles are interpolated linearly)',
                'uniform refinement of multi-layer bodies is only required to converge (upper layers start one slice above the interface: recorded first-order drift)']
@@ -40,7 +40,7 @@ def gen_cases(tier, seed):
         cases.append({'rel': REL[i % len(REL)], 'kinds': kinds, 'profile': ['const', 'linear'][int(rng.integers(2))], 'l': int(rng.integers(2, 7)),
                       'freq': float(10 ** (rng.uniform(-4, -3) if dyn else rng.uniform(-7, -3))), 'a': float(10 ** rng.uniform(-2, 2)),
                       'R': float(10 ** rng.uniform(5.7, 7.2)), 'nper': int(rng.choice([20, 40, 60])), 'kamata': bool(rng.integers(2)), 'm1': int(rng.integers(3)), 'sub': i, 'seed': seed,
-                      'static_solid': bool(rng.integers(2))})
+                      'static_solid': bool(rng.integers(2)), 'sf': [['tidal'], ['loading'], ['tidal', 'loading'], ['loading', 'free']][int(rng.integers(4))], 'nd': bool(rng.integers(2))})
     return cases
 
 
@@ -99,7 +99,10 @@ def eval_case(c):
         cnt['solves'] += 1
         return solve(body, w, l=l, solve_for=sf, kamata=c['kamata'], method=method or METHODS[c['m1']], rtol=rt, nondim=nd, max_steps=300000)
 
-    def conv(body, sf=('tidal',), method=None, nd=True):
+    SF = tuple(c.get('sf', ['tidal']))
+
+    def conv(body, sf=None, method=None, nd=True):
+        sf = SF if sf is None else sf
         """solve + 100x tighter probe; returns (love, delta_conv) or (None, reason)"""
         s = run(body, sf, method, rtol, nd)
         if not s['success']:
@@ -107,7 +110,7 @@ def eval_case(c):
         s2 = run(body, sf, method, rtol / 100, nd)
         if not s2['success']:
             return None, 'convergence probe failed'
-        d = float(np.max(np.abs(s2['love'] - s['love'])))
+        d = float(np.nanmax(np.abs(s2['love'] - s['love'])))
         if d > 1e3 * rtol:
             return None, f'not converged (delta {d:.1e})'
         return s['love'], d
@@ -121,6 +124,7 @@ def eval_case(c):
         La, da = conv(base)
         if La is None:
             return inconclusive(da)
+        obs['solve_for'] = list(SF)
         extra = 0.0
         if rel == 'R1_nondim':
             Lb, db = conv(base, nd=False)
@@ -143,8 +147,8 @@ def eval_case(c):
                 Lc, dc = conv(finer)
                 if Lc is None:
                     return inconclusive(dc)
-                d12 = float(np.max(np.abs(La - Lb)))
-                d23 = float(np.max(np.abs(Lb - Lc)))
+                d12 = float(np.nanmax(np.abs(La - Lb)))
+                d23 = float(np.nanmax(np.abs(Lb - Lc)))
                 cnt['pairs_compared'] += 1
                 obs.update(drift_N_3N=d12, drift_3N_9N=d23)
                 small = 50 * rtol + 10 * (da + db + dc)
@@ -154,7 +158,7 @@ def eval_case(c):
         if Lb is None:
             return inconclusive(db)
         budget = 50 * rtol + 10 * (da + db) + extra
-        err = float(np.max(np.abs(La - Lb)))
+        err = float(np.nanmax(np.abs(La - Lb)))
         cnt['pairs_compared'] += 1
         obs.update(err=err, budget=budget, love=[complex(x) for x in La[0]])
         if err > budget:
@@ -180,7 +184,8 @@ def eval_case(c):
                 V('R3-type-depends-on-companions', f'loading Love numbers alone differ from slot 1 of (tidal, loading) by {float(np.max(np.abs(s["love"][1]-la[0]))):.3e}')
         obs['love'] = [complex(x) for x in alone[0]]
     elif rel == 'R6_reciprocity':
-        L, d = conv(base, ('tidal', 'loading'))
+        L, d = conv(base, ('tidal', 'loading'), nd=c.get('nd', True))
+        obs['nondimensionalize'] = c.get('nd', True)
         if L is None:
             return inconclusive(d)
         kt, ht, kl = L[0][0], L[0][1], L[1][0]
